@@ -51,7 +51,7 @@ impl Check for C12 {
         "C12"
     }
     fn rule(&self) -> &'static str {
-        "case = one configuration (mode graph with lookaheads), 2-3 inputs, up to 2 scanners obtained with build() (same cache entry) and up to 6 (occasionally 40) live iterators; an interleaved history of create(scanner, input) | next(i) | peek_n(i, n) | set_mode(i, m) | set_offset(i, o) | drop(i) | Scanner::set_mode(s, m); oracle = for each iterator its own sub-history is replayed alone on a scanner from build_uncached() and every observation (tokens, peek results, current_mode after each call) must be identical, and a second isolated replay without the peeks must give the same non-peek observations; non-trivial = two iterators alive at the same time with interleaved next calls on different inputs or in different modes"
+        "case = one configuration (mode graph with lookaheads), 2-3 inputs, up to 2 scanners obtained with build() (same cache entry) and up to 6 (occasionally 40) live iterators; an interleaved history of create(scanner, input) | next(i) | peek_n(i, n) | set_mode(i, m) | set_offset(i, o) | drop(i) | Scanner::set_mode(s, m); oracle = for each iterator its own sub-history is replayed alone on a scanner from build_uncached() and every observation (tokens, peek results, current_mode after each call) must be identical, and a second isolated replay without the peeks must give the same non-peek observations; ~19% of the cases additionally scan 3-7 inputs of equal byte length (variants of one input differing in 1-3 characters) one after the other from ONE reused buffer (same address), the earlier ones only partially or only peeked, each compared with a fresh uncached scanner on a private copy; non-trivial = two iterators alive at the same time with interleaved next calls on different inputs or in different modes"
     }
     fn cases(&self, thorough: bool) -> usize {
         if thorough {
@@ -60,11 +60,47 @@ impl Check for C12 {
             40_000
         }
     }
+    fn nondeterministic(&self) -> bool {
+        // a leak from the past (state shared through the cached compilation, keyed by addresses,
+        // left by other cases of this process) need not show again when the case runs alone
+        true
+    }
     fn generate(&self, d: &mut Dec, thorough: bool) -> Case {
         let mut case = gen_mode_graph_case(d, thorough, 30);
         let model = case.model();
         for _ in 0..1 + d.below(2) {
             case.inputs.push(gen::gen_input(d, &model, if thorough { 40 } else { 20 }));
+        }
+        if d.chance(48) {
+            // the line-buffer idiom: inputs of equal byte length that differ in a few characters
+            // are scanned one after the other from ONE reused buffer (same address), the earlier
+            // ones only partially or only peeked
+            let base: Vec<char> = case.inputs[0].chars().collect();
+            let mut seq = Vec::new();
+            if !base.is_empty() {
+                let first_variant = case.inputs.len();
+                for _ in 0..1 + d.below(2) {
+                    let mut v = base.clone();
+                    for _ in 0..1 + d.below(3) {
+                        let i = d.below(v.len());
+                        let pool: Vec<char> = gen::ALPHABET.iter().copied().filter(|c| c.len_utf8() == v[i].len_utf8()).collect();
+                        if !pool.is_empty() {
+                            v[i] = *d.pick(&pool);
+                        }
+                    }
+                    case.inputs.push(v.into_iter().collect());
+                }
+                let nvar = case.inputs.len() - first_variant;
+                for _ in 0..2 + d.below(4) {
+                    let which = if d.bool() { 0 } else { first_variant + d.below(nvar) };
+                    let take = *d.pick(&[0usize, 1, 1, 2, 3, usize::MAX]);
+                    seq.push(serde_json::json!([which, if take == usize::MAX { -1i64 } else { take as i64 }, d.bool()]));
+                }
+                // the last one is scanned completely
+                let which = if d.bool() { 0 } else { first_variant + d.below(nvar) };
+                seq.push(serde_json::json!([which, -1, false]));
+            }
+            case.extra = serde_json::json!({"reused_buffer": seq});
         }
         let nm = case.modes.len();
         let ninp = case.inputs.len();
@@ -274,6 +310,82 @@ impl Check for C12 {
                     Err(p) => return Err(Failure::panic("c12.panic", "peek-free replay panicked", p)),
                     Ok(Err(f)) => return Err(f),
                     Ok(Ok(())) => st.count("peek_free_replays"),
+                }
+            }
+        }
+        // inputs scanned earlier from the same (reused) buffer
+        if let Some(seq) = case.extra.get("reused_buffer").and_then(|v| v.as_array()) {
+            let steps: Vec<(usize, Option<usize>, bool)> = seq
+                .iter()
+                .filter_map(|e| {
+                    let which = e.get(0)?.as_u64()? as usize;
+                    let take = e.get(1)?.as_i64()?;
+                    let peek = e.get(2)?.as_bool()?;
+                    (which < case.inputs.len()).then_some((which, (take >= 0).then_some(take as usize), peek))
+                })
+                .collect();
+            let cap = case.inputs.iter().map(|s| s.len()).max().unwrap_or(0) + 8;
+            let r = guard(|| -> Result<u64, Failure> {
+                let fresh = case
+                    .build_uncached()
+                    .map_err(|e| Failure::new("c12.build", format!("build_uncached failed: {}", e)))?;
+                let mut buf = String::with_capacity(cap);
+                let mut same_address = 0u64;
+                let mut last_ptr = None;
+                for (si, (which, take, peek)) in steps.iter().enumerate() {
+                    let inp = &case.inputs[*which];
+                    buf.clear();
+                    buf.push_str(inp);
+                    if last_ptr == Some(buf.as_ptr() as usize) {
+                        same_address += 1;
+                    }
+                    last_ptr = Some(buf.as_ptr() as usize);
+                    let nchars = inp.chars().count();
+                    let limit = take.unwrap_or(nchars + 2);
+                    let observe = |it: &mut scnr::FindMatches<'_>| -> Vec<Obs> {
+                        let mut v = Vec::new();
+                        if *peek {
+                            v.extend(apply(it, &Op::PeekN { n: limit.min(nchars + 2) }));
+                        } else {
+                            for _ in 0..limit {
+                                let o = apply(it, &Op::Next).unwrap();
+                                let end = matches!(o, Obs::Next(None, _));
+                                v.push(o);
+                                if end {
+                                    break;
+                                }
+                            }
+                        }
+                        v
+                    };
+                    let seen = {
+                        let mut it = scanners[si % 2].find_iter(&buf);
+                        observe(&mut it)
+                    };
+                    let alone = {
+                        let copy = inp.clone();
+                        let mut it = fresh.find_iter(&copy);
+                        observe(&mut it)
+                    };
+                    if seen != alone {
+                        return Err(Failure::new(
+                            "c12.earlier_input",
+                            format!(
+                                "step {} of the reused-buffer sequence {:?}: scanning {:?} from a buffer that held other inputs before differs from scanning it with a fresh scanner",
+                                si, steps, inp
+                            ),
+                        )
+                        .exp_obs(alone, seen));
+                    }
+                }
+                Ok(same_address)
+            });
+            match r {
+                Err(p) => return Err(Failure::panic("c12.panic", "reused-buffer sequence panicked", p)),
+                Ok(Err(f)) => return Err(f),
+                Ok(Ok(n)) => {
+                    st.count("reused_buffer_sequences");
+                    st.add("inputs_scanned_at_the_address_of_an_earlier_one", n);
                 }
             }
         }
